@@ -482,7 +482,15 @@ pub fn c07() -> i32 {
                                     s.horizon = r + 2;
                                     s.probe = 50;
                                     s.checks = CK_DROP;
+                                    // the same with an application that also polls between its
+                                    // ticks: the inputs taken in by that poll (and the
+                                    // mispredictions they reveal) are pending when
+                                    // disconnect_player is called
+                                    let mut s2 = s.clone();
+                                    s2.script.insert(0, ScriptItem { round: r, node: 0, action: Action::Poll });
+                                    s2.name = format!("{} polls-between-ticks", s2.name);
                                     scns.push(s);
+                                    scns.push(s2);
                                 }
                             }
                         }
